@@ -123,7 +123,9 @@ theorem addNext_spec (a0 : AtomsS) (c0 : Ctx) (hfx : FixedOK a0) (r : Nat) (s : 
   · -- vetoed
     left
     simp only [hidx, List.isEmpty_nil, if_true, Bool.not_true, true_and]
-    refine ⟨⟨?_, ?_, ?_, ?_, ?_, ?_, fun hk => by show s1.ctx.addedSizes = _; rw [hsizes1]; exact h.sizes0 hk⟩, ?_⟩
+    refine ⟨⟨?_, ?_, ?_, ?_, ?_, ?_, fun hk => by show s1.ctx.addedSizes = _; rw [hsizes1]; exact h.sizes0 hk,
+      by show s1.ctx.addedSizes.sum = _; rw [hsizes1]; exact h.sizesSum,
+      by show ∀ n ∈ s1.ctx.addedSizes, _; rw [hsizes1]; exact h.sizesPos⟩, ?_⟩
     · show s1.atoms.cell = a0.cell; rw [hat]; exact h.cell
     · show s1.atoms.fixed = a0.fixed; rw [hat]; exact h.fixed
     · show s1.atoms.rows.take a0.rows.length = a0.rows; rw [hat]; exact h.take
@@ -142,7 +144,8 @@ theorem addNext_spec (a0 : AtomsS) (c0 : Ctx) (hfx : FixedOK a0) (r : Nat) (s : 
     have hie' : idx.isEmpty = false := by cases idx <;> simp_all
     simp only [hie', Bool.false_eq_true, if_false, Bool.not_false, true_and]
     have hpos : 0 < new.length := List.length_pos_iff.mpr hnew
-    refine ⟨⟨?_, ?_, ?_, ?_, ?_, ?_, fun hk => by omega⟩, ?_⟩
+    have hidxlen : idx.length = new.length := by rw [hidx]; simp [addMoving]
+    refine ⟨⟨?_, ?_, ?_, ?_, ?_, ?_, fun hk => by omega, ?_, ?_⟩, ?_⟩
     · show s1.atoms.cell = a0.cell; rw [hd]; exact h.cell
     · show s1.atoms.fixed = a0.fixed; rw [hd]; exact h.fixed
     · show s1.atoms.rows.take a0.rows.length = a0.rows
@@ -166,6 +169,15 @@ theorem addNext_spec (a0 : AtomsS) (c0 : Ctx) (hfx : FixedOK a0) (r : Nat) (s : 
     · show ctxCore { (recordAdded s1.ctx idx s1.atoms.rows) with addedIdx := [], addedAtoms := [], addedSizes := [], delta := 0 } = _
       rw [← hcore1]
       simp [recordAdded, ctxCore]
+    · show (recordAdded s1.ctx idx s1.atoms.rows).addedSizes.sum = _
+      simp only [recordAdded, hsizes1, List.sum_append, List.sum_cons, List.sum_nil, hidxlen, h.sizesSum]
+      omega
+    · show ∀ n ∈ (recordAdded s1.ctx idx s1.atoms.rows).addedSizes, _
+      intro n hn
+      simp only [recordAdded, hsizes1, List.mem_append, List.mem_singleton] at hn
+      rcases hn with hn | hn
+      · exact h.sizesPos n hn
+      · right; rw [hn, hidxlen]; exact hpos
     · show (recordAdded s1.ctx idx s1.atoms.rows).delta = s.ctx.delta + 1
       simp [recordAdded, hdelta1]
 
@@ -510,6 +522,104 @@ theorem onPartsObj_labels_congr (m m' : MoveObj) (sizes a r : List Nat) (hl : m'
 theorem onPartsObj_nil (m : MoveObj) : onPartsObj m [] [] [] = m := by
   simp [onPartsObj, onAtomsChangedObj]
 
+/-! #### which labels the per-particle notifications give -/
+
+theorem maxFrom_le (acc M : Int) (l : List Int) (ha : acc ≤ M) (hl : ∀ x ∈ l, x ≤ M) : maxFrom acc l ≤ M := by
+  induction l generalizing acc with
+  | nil => simpa [maxFrom] using ha
+  | cons x xs ih =>
+    simp only [maxFrom]
+    have hx := hl x (List.mem_cons_self ..)
+    have hxs : ∀ y ∈ xs, y ≤ M := fun y hy => hl y (List.mem_cons_of_mem _ hy)
+    by_cases h : x > acc
+    · simp only [h, if_true]; exact ih x hx hxs
+    · simp only [h, if_false]; exact ih acc ha hxs
+
+theorem newLabel_eq (labels : List Int) : newLabel labels none = maxFrom (-1) (uniqueLabels labels) + 1 := by
+  unfold newLabel
+  simp only []
+  split
+  · rename_i h
+    have : uniqueLabels labels = [] := by simpa using h
+    rw [this]; rfl
+  · rfl
+
+/-- after `n > 0` rows got the fresh label, the next fresh label is one more -/
+theorem newLabel_after (labels : List Int) (n : Nat) (hn : 0 < n) :
+    newLabel (labels ++ List.replicate n (newLabel labels none)) none = newLabel labels none + 1 := by
+  generalize hL : newLabel labels none = L
+  have hL0 : 0 ≤ L := by rw [← hL]; exact newLabel_nonneg labels
+  rw [newLabel_eq (labels ++ List.replicate n L)]
+  congr 1
+  apply Int.le_antisymm
+  · apply maxFrom_le _ _ _ (by omega)
+    intro x hx
+    obtain ⟨hmem, h0⟩ := (uniqueLabels_mem _ x).1 hx
+    rcases List.mem_append.mp hmem with h | h
+    · have := newLabel_fresh labels x h h0; rw [hL] at this; omega
+    · rw [(List.mem_replicate.mp h).2]; exact Int.le_refl _
+  · apply maxFrom_ge_mem
+    apply (uniqueLabels_mem _ L).2
+    exact ⟨List.mem_append_right _ (List.mem_replicate.mpr ⟨by omega, rfl⟩), hL0⟩
+
+/-- the labels of `k` inserted particles when no label is configured: `fresh`, `fresh + 1`, … — one per particle -/
+def partLabels (fresh : Int) : List Nat → List Int
+  | [] => []
+  | n :: ns => List.replicate n fresh ++ partLabels (fresh + 1) ns
+
+/-- **every inserted particle gets ONE label, and distinct particles get DISTINCT (consecutive fresh) labels**: with sizes
+    `n₁ … n_k` (all positive, together as many as the added rows) the per-particle notifications append
+    `n₁` times `fresh`, `n₂` times `fresh + 1`, … to the label array of a move without configured label -/
+theorem onPartsObj_insert_labels (m : MoveObj) (hd : m.defaultLabel = none) (sizes added : List Nat)
+    (hne : sizes ≠ []) (hpos : ∀ n ∈ sizes, 0 < n) (hsum : sizes.sum = added.length) :
+    (onPartsObj m sizes added []).labels = m.labels ++ partLabels (newLabel m.labels none) sizes := by
+  induction sizes generalizing m added with
+  | nil => exact absurd rfl hne
+  | cons n ns ih =>
+    have hn : 0 < n := hpos n (List.mem_cons_self ..)
+    cases ns with
+    | nil =>
+      have hlen : added.length = n := by simpa using hsum.symm
+      have hane : added.isEmpty = false := by cases added <;> simp_all
+      simp [onPartsObj, onAtomsChangedObj, hane, hd, hlen, partLabels]
+    | cons k ks =>
+      simp only [onPartsObj]
+      have hsum' : (k :: ks).sum = (added.drop n).length := by
+        simp only [List.sum_cons, List.length_drop] at hsum ⊢; omega
+      have htake : (added.take n).length = n := by
+        simp only [List.length_take, List.sum_cons] at hsum ⊢; omega
+      have htne : (added.take n).isEmpty = false := by
+        cases h : added.take n with
+        | nil => rw [h] at htake; simp at htake; omega
+        | cons _ _ => rfl
+      have hm1 : (onAtomsChangedObj m (added.take n) []).labels
+          = m.labels ++ List.replicate n (newLabel m.labels none) := by
+        simp [onAtomsChangedObj, htne, hd, htake]
+      have hd1 : (onAtomsChangedObj m (added.take n) []).defaultLabel = none := by
+        rw [(onAtomsChanged_static m _ _).2, hd]
+      rw [ih (onAtomsChangedObj m (added.take n) []) hd1 (added.drop n) (by simp)
+        (fun x hx => hpos x (List.mem_cons_of_mem _ hx)) hsum', hm1, newLabel_after m.labels n hn]
+      simp [partLabels, List.append_assoc]
+
+/-- the labels of consecutive particles are consecutive: nothing is shared between two particles -/
+theorem partLabels_cons (fresh : Int) (n : Nat) (ns : List Nat) :
+    partLabels fresh (n :: ns) = List.replicate n fresh ++ partLabels (fresh + 1) ns := rfl
+
+theorem partLabels_ge (fresh : Int) (sizes : List Nat) : ∀ x ∈ partLabels fresh sizes, fresh ≤ x := by
+  induction sizes generalizing fresh with
+  | nil => intro x hx; cases hx
+  | cons n ns ih =>
+    intro x hx
+    rcases List.mem_append.mp hx with h | h
+    · rw [(List.mem_replicate.mp h).2]; exact Int.le_refl _
+    · have := ih (fresh + 1) x h; omega
+
+/-- the label of the first particle occurs in no later particle -/
+theorem partLabels_first_fresh (fresh : Int) (n : Nat) (ns : List Nat) : fresh ∉ partLabels (fresh + 1) ns := by
+  intro h
+  have := partLabels_ge (fresh + 1) ns fresh h
+  omega
+
 /-- what the per-particle notifications do to object `r` -/
 theorem notifyParts_spec (rs sizes added removed : List Nat) (h : List MoveObj) (hn : rs.Nodup) (r : Nat) :
     (notifyParts rs sizes added removed h).getD r { kind := .user } =
@@ -549,7 +659,7 @@ theorem compExch_insertion_call (rs : List Nat) (b : Nat) (s : State) (hinv : In
       (∀ k, s.ctx.template.length = k → (∀ r ∈ rs, (toAddOf (s.obj r) s.ctx).length = k) →
         K' = k * compExchInserted rs s) := by
   have h0 : AddInv s.atoms s.ctx ({ s with inp := s.inp.draw.2 } : State) 0 := by
-    refine ⟨rfl, rfl, ?_, by simp, ?_, rfl, fun _ => rfl⟩
+    refine ⟨rfl, rfl, ?_, by simp, ?_, rfl, fun _ => rfl, by simp, fun n hn => .inl hn⟩
     · simp
     · simpa using hinv.noAdded
   have hcall : callTree (.compExch rs b) s = compExchAddLoop rs false { s with inp := s.inp.draw.2 } := by
